@@ -1843,6 +1843,9 @@ func Expire() int {
 
 	verifYield("Expire.afterSample")
 	count := count()
+	if count == 0 {
+		return 0
+	}
 	fair := low / int64(count)
 
 	bigcount := 0
@@ -1858,6 +1861,10 @@ func Expire() int {
 	})
 
 	verifYield("Expire.afterCount")
+	if bigcount == 0 {
+		// things changed under our feet
+		return 0
+	}
 	fair2 := (low - smallspace) / int64(bigcount)
 
 	Range(func(h hash.Hash, t *Torrent) bool {
